@@ -44,7 +44,7 @@ def ruLoop {σ : Type} (o : Ops σ) (size : Option Nat) : Nat → UF σ → Byte
     | some n =>
       if line.any isNL then (u, .ok (.brk line false))
       else match o.read u.f.s u.f.realpos n with
-        | (s', .error e) => ({ u with f := { u.f with s := s' } }, .error e)
+        | (s', .error e) => ({ u with f := { u.f with s := s', rbuf := line } }, .error e)
         | (s', .ok d) =>
           if d.isEmpty then
             ({ u with f := { u.f with s := s', rbuf := [], pos := u.f.pos + line.length } }, .ok (.eof line))
